@@ -144,10 +144,15 @@ def run(ctx):
                             overrides={"GenToks": set(toks_q), "PathLen": L, "Methods": set(ctx.pick(["GET"], ["GET", "HEAD"]))},
                             required_actions=["request"])
         ctx.replay(paths, replayer, nontrivial=nt)
-        paths2 = W.mc_states(ctx, "webstatic", "StaticPath", "MC_StaticPath.cfg",
-                             overrides={"GenToks": set(toks_all), "PathLen": L - 1,
+        if not ctx.quick:
+            paths2 = W.mc_states(ctx, "webstatic", "StaticPath", "MC_StaticPath.cfg",
+                                 overrides={"GenToks": set(toks_all), "PathLen": 3}, required_actions=["request"])
+            ctx.replay(paths2, replayer, nontrivial=nt)
+        # all tokens, short paths, every spelling of the configured root (trailing '/', relative, './', 'sub/..')
+        paths3 = W.mc_states(ctx, "webstatic", "StaticPath", "MC_StaticPath.cfg",
+                             overrides={"GenToks": set(toks_all), "PathLen": 2,
                                         "Spells": set(ctx.pick(["plain", "trailing", "relative"], SPELLS))}, required_actions=["request"])
-        ctx.replay(paths2, replayer, nontrivial=nt)
+        ctx.replay(paths3, replayer, nontrivial=nt)
         ctx._phase("mc+s2c", t0)
         ctx.cov["exhaustive"] = True
         n = ctx.pick(200, 4000)
@@ -163,7 +168,7 @@ def run(ctx):
         ctx.cov["rule"] = ("requests: every path of <= %d tokens over the 14-token core alphabet (<= %d over all 23 tokens) x default_filename on/off (the shorter paths also x HEAD and x spellings of the configured root: trailing '/', relative, './', 'sub/..'), each "
                            "on the tree with and without files outside the root; random recorded request sequences (20-25 requests "
                            "each, paths of <= 8 segments with per-character escapes); distinct = distinct (config, method, path); "
-                           "non-trivial = non-empty path" % (L, L - 1))
+                           "non-trivial = non-empty path" % (L, ctx.pick(2, 3)))
         ctx.cov["trusted_base"] += ["harness/httpsim.split_responses (transport splitter)", "real file system under /tmp (scratch tree)"]
     finally:
         _drop_trees()
